@@ -39,6 +39,8 @@ pub enum Op {
     Tcp,
     /// udp with Some(local port) or None
     Udp(Option<u16>),
+    /// udp with the local address 0.0.0.0:port (all interfaces, fixed port)
+    UdpAny(u16),
     Relay,
     Compressed,
     Uncompressed,
@@ -134,6 +136,11 @@ pub fn apply(ops: &[Op], remote_addr: SocketAddr) -> Result<(Builder, Model), St
                 m.udp_local = *local;
                 let l: Option<SocketAddr> = local.map(|p| SocketAddr::from(([127, 0, 0, 1], p)));
                 b.udp(remote_addr, l)
+            },
+            Op::UdpAny(port) => {
+                m.udp = true;
+                m.udp_local = Some(*port);
+                b.udp(remote_addr, Some(SocketAddr::from(([0, 0, 0, 0], *port))))
             },
             Op::Relay => {
                 m.udp = false;
@@ -240,6 +247,8 @@ fn op_from(s: &str) -> Option<Op> {
                 Op::Admin(opt_str(&i)?)
             } else if let Some(i) = inner("Reqi(") {
                 Op::Reqi(i.parse().ok()?)
+            } else if let Some(i) = inner("UdpAny(") {
+                Op::UdpAny(i.parse().ok()?)
             } else if let Some(i) = inner("Udp(") {
                 Op::Udp(opt_num(&i)?.map(|v| v as u16))
             } else if let Some(i) = inner("Verify(") {
@@ -345,6 +354,8 @@ pub struct ConnectCase {
     pub post: Vec<Op>,
     pub udp: bool,
     pub with_local: bool,
+    /// the local address is 0.0.0.0:port instead of 127.0.0.1:port
+    pub local_any: bool,
     pub async_api: bool,
 }
 
@@ -360,7 +371,7 @@ impl Part for Connect {
     }
     fn check(&self, c: &ConnectCase, ev: &mut Local) -> Result<(), Fail> {
         // the generated ops never contain transport selection; it is appended here with real loopback addresses
-        let mut ops: Vec<Op> = c.ops.iter().filter(|o| !matches!(o, Op::Tcp | Op::Udp(_))).cloned().collect();
+        let mut ops: Vec<Op> = c.ops.iter().filter(|o| !matches!(o, Op::Tcp | Op::Udp(_) | Op::UdpAny(_))).cloned().collect();
         let received: Vec<Vec<u8>>;
         let model;
         if !c.udp {
@@ -370,7 +381,7 @@ impl Part for Connect {
             }).unwrap();
             let addr = listener.local_addr().unwrap();
             ops.push(Op::Tcp);
-            ops.extend(c.post.iter().filter(|o| !matches!(o, Op::Tcp | Op::Udp(_) | Op::Relay)).cloned());
+            ops.extend(c.post.iter().filter(|o| !matches!(o, Op::Tcp | Op::Udp(_) | Op::UdpAny(_) | Op::Relay)).cloned());
             let (b, m) = apply(&ops, addr).map_err(|e| Fail::new("harness:apply", e))?;
             model = m;
             let server = std::thread::spawn(move || {
@@ -414,8 +425,11 @@ impl Part for Connect {
             }).unwrap();
             let addr = peer.local_addr().unwrap();
             let local = if c.with_local { free_udp_port() } else { None };
-            ops.push(Op::Udp(local));
-            ops.extend(c.post.iter().filter(|o| !matches!(o, Op::Tcp | Op::Udp(_) | Op::Relay)).cloned());
+            ops.push(match local {
+                Some(p) if c.local_any => Op::UdpAny(p),
+                l => Op::Udp(l),
+            });
+            ops.extend(c.post.iter().filter(|o| !matches!(o, Op::Tcp | Op::Udp(_) | Op::UdpAny(_) | Op::Relay)).cloned());
             let (b, m) = apply(&ops, addr).map_err(|e| Fail::new("harness:apply", e))?;
             model = m;
             let r: Result<Result<(), String>, String> = if c.async_api {
@@ -482,10 +496,10 @@ impl Part for Connect {
         Ok(())
     }
     fn to_json(&self, c: &ConnectCase) -> Value {
-        json!({"calls": ops_json(&c.ops), "calls_after_transport": ops_json(&c.post), "udp": c.udp, "with_local": c.with_local, "async": c.async_api})
+        json!({"calls": ops_json(&c.ops), "calls_after_transport": ops_json(&c.post), "local_any": c.local_any, "udp": c.udp, "with_local": c.with_local, "async": c.async_api})
     }
     fn from_json(&self, v: &Value) -> Option<ConnectCase> {
-        Some(ConnectCase { ops: ops_from(v.get("calls")?)?, post: v.get("calls_after_transport").and_then(ops_from).unwrap_or_default(), udp: v.get("udp")?.as_bool()?, with_local: v.get("with_local")?.as_bool()?, async_api: v.get("async")?.as_bool()? })
+        Some(ConnectCase { ops: ops_from(v.get("calls")?)?, post: v.get("calls_after_transport").and_then(ops_from).unwrap_or_default(), local_any: v.get("local_any").and_then(|x| x.as_bool()).unwrap_or(false), udp: v.get("udp")?.as_bool()?, with_local: v.get("with_local")?.as_bool()?, async_api: v.get("async")?.as_bool()? })
     }
 }
 
@@ -498,7 +512,7 @@ fn text_opt(max: usize) -> impl Strategy<Value = Option<String>> {
 
 fn op_strategy(with_transport: bool) -> impl Strategy<Value = Op> {
     let transport = if with_transport {
-        prop_oneof![Just(Op::Tcp), Just(Op::Relay), prop_oneof![Just(None), (1024u16..65535).prop_map(Some), Just(Some(0u16))].prop_map(Op::Udp)].sboxed()
+        prop_oneof![Just(Op::Tcp), Just(Op::Relay), prop_oneof![Just(None), (1024u16..65535).prop_map(Some), Just(Some(0u16))].prop_map(Op::Udp), prop_oneof![3 => 1024u16..65535, 1 => Just(0u16)].prop_map(Op::UdpAny)].sboxed()
     } else {
         Just(Op::Compressed).sboxed()
     };
@@ -536,7 +550,7 @@ pub fn parts() -> Vec<Box<dyn DynPart>> {
 
 pub fn run(run: &mut Run) {
     run.rule = "Builder call sequences of length 0..25 over the 10 flag setters, wholesale flag replacement, prefix / interval / name / \
-        password / request id set or cleared, tcp / udp(with, without local address) / relay, compressed / uncompressed, verify_version, \
+        password / request id set or cleared, tcp / udp(with, without local address; on 127.0.0.1 or on 0.0.0.0) / relay, compressed / uncompressed, verify_version, \
         tcp_nodelay, mode(), connect_timeout and the relay-only options (websocket, host selection, spectator / admin password) are applied to the real builder and to a plain struct model (later calls override earlier ones); isi() must not panic \
         and must render like the model's ISI (defaults: name insim.rs, empty password, NUL prefix, interval 0, request id 0, UDP port = \
         configured local port or 0). All 1024 flag states via the individual setters (complete). Connect: a loopback TCP listener / UDP \
@@ -552,8 +566,8 @@ pub fn run(run: &mut Run) {
     let n = run.budget(200_000, 5_000_000);
     run.prop(&IsiModel, proptest::collection::vec(op_strategy(true), 0..25), n);
     run.max_shrink_iters = 200;
-    let strat = (proptest::collection::vec(prop_oneof![8 => op_strategy(false), 1 => Just(Op::Relay)], 0..12), proptest::collection::vec(op_strategy(false), 0..5), any::<bool>(), any::<bool>(), any::<bool>())
-        .prop_map(|(ops, post, udp, with_local, async_api)| ConnectCase { ops, post, udp, with_local, async_api });
+    let strat = (proptest::collection::vec(prop_oneof![8 => op_strategy(false), 1 => Just(Op::Relay)], 0..12), proptest::collection::vec(op_strategy(false), 0..5), any::<bool>(), any::<bool>(), any::<bool>(), any::<bool>())
+        .prop_map(|(ops, post, udp, with_local, local_any, async_api)| ConnectCase { ops, post, udp, with_local, local_any, async_api });
     let n = run.budget(600, 20_000);
     run.prop(&Connect, strat, n);
 }
